@@ -13,18 +13,19 @@ from symex.larr import LArr
 from symex.pdfacade import FakeDF
 
 PROPERTY = "C13"
-FUNCTIONS = ["ibldsp.waveform_extraction.extract_wfs_array", "ibldsp.waveform_extraction._make_wfs_table", "ibldsp.waveform_extraction.write_wfs_chunk", "ibldsp.utils.make_channel_index"]
+FUNCTIONS = ["ibldsp.waveform_extraction.extract_wfs_cbin (table / traces / channel map / templates)", "ibldsp.waveform_extraction.aggregate_by_clusters", "ibldsp.waveform_extraction.extract_wfs_array", "ibldsp.waveform_extraction._make_wfs_table", "ibldsp.waveform_extraction.write_wfs_chunk", "ibldsp.utils.make_channel_index"]
 ASSUMPTIONS = [
     "pandas is replaced by a thin dict-of-columns stand-in (symex/pdfacade.py) implementing the operations the three functions use",
     "rng.choice(a, m, replace=False) returns ARBITRARY m distinct members of a (every choice is explored by forking)",
     "spike times sorted ascending (the documented input of the extractor); recording and waveform sizes are small concrete numbers per case, spike times / clusters / peak channels symbolic",
+    "extract_wfs_cbin: open_memmap / np.save / np.savez / DataFrame.to_parquet record their argument on the fake file system; joblib.Parallel runs the chunks one after the other; the neighbourhood radius is set to 35 um so that a 3-site excerpt has NaN padding; recording length symbolic in (chunk, 3*chunk], 2 (quick) or 3 (thorough) spikes with free times, units in {0,1} and peak channels",
     "write_wfs_chunk: the reader is the real spikeglx.Reader on a lazy raw array RAW(sample, channel), no preprocessing step selected; floats as reals",
 ]
-OUTSIDE = ["parquet / npz / npy file I/O and WaveformsLoader (pandas/pyarrow I/O)", "templates (nanmedian over files)", "real joblib scheduling", "the preprocessing filters (C05/C07)"]
+OUTSIDE = ["the byte formats of parquet / npz / npy and WaveformsLoader (pandas/pyarrow I/O)", "real joblib scheduling", "the preprocessing filters (C05/C07)", "more than 3 spikes / 2 units in the whole-function case", "a spike list without any spike inside the margins (extract_wfs_cbin then stops with an IndexError on the empty table: observed, not claimed)"]
 EXPLANATION = "peak channels and unit membership fork the path; cut-outs are ITE gathers over symbolic sample indices."
 LEVEL_TEXT = ("For every spike position and peak channel (cut-out), every assignment of spikes to units and every random choice (selection), and every spike/chunk-size relation (chunk writer), z3 decides: each waveform equals the source traces on "
               "the ascending neighbourhood of its peak channel over [sample-offset, sample-offset+length) with NaN on the padding; each unit gets min(max_wf, #valid spikes) distinct valid spikes with a cluster-contiguous bijective row index; "
-              "a chunk writes each waveform to its own row with content independent of the chunk size.")
+              "a chunk writes each waveform to its own row with content independent of the chunk size; for the whole extract_wfs_cbin: table row r, trace r and channel-map row r describe the same spike (waveform_index == r, sorted by cluster, index within cluster from 0), every trace cell is written, and template i is the NaN-aware median of the traces of the i-th cluster present.")
 LEVEL_NOTE = "Trusted: z3, SymArray / lazy array models, the pandas stand-in, the arbitrary-choice model of the random generator."
 
 
@@ -151,7 +152,27 @@ class _SR:
         self.ns = ns
 
 
-def case_selection(ctx, n, max_wf, offset, length, nunits=2):
+class _UInt64(arrays.SymArray):
+    """spike times held as uint64 (as Kilosort writes them): + and - with Python ints wrap modulo 2^64, as in NumPy"""
+
+    @property
+    def dtype(self):
+        return np.dtype(np.uint64)
+
+    def __array_ufunc__(self, ufunc, method, *inputs, **kwargs):
+        ins = [i.view(arrays.SymArray) if isinstance(i, _UInt64) else i for i in inputs]
+        res = arrays.array_ufunc(ufunc, method, ins, kwargs)
+        if ufunc in (np.add, np.subtract) and method == "__call__" and isinstance(res, np.ndarray) and all(isinstance(i, (int, np.integer, _UInt64, arrays.SymArray)) for i in inputs):
+            M = 2 ** 64
+            out = np.empty(res.shape, dtype=object)
+            for pos in np.ndindex(*res.shape):
+                e = np.asarray(arrays._plain(res), dtype=object)[pos]
+                out[pos] = ite(e < 0, e + M, ite(e >= M, e - M, e)) if isinstance(e, core.Sym) else int(e) % M
+            return out.view(_UInt64)
+        return res
+
+
+def case_selection(ctx, n, max_wf, offset, length, nunits=2, unsigned=False):
     import ibldsp.waveform_extraction as we
     ns = ctx.int("ns", length + 2, 10 ** 6)
     samples = [ctx.int(f"s{i}", 0, 10 ** 6) for i in range(n)]
@@ -159,7 +180,10 @@ def case_selection(ctx, n, max_wf, offset, length, nunits=2):
         ctx.assume(samples[i] <= samples[i + 1])
     clusters = [ctx.int(f"u{i}", 0, nunits - 1) for i in range(n)]
     chans = [ctx.int(f"c{i}", 0, 383) for i in range(n)]
-    res = ctx.call("make_wfs_table", we._make_wfs_table, _SR(ns), arrays.mk(list(samples), tag=np.dtype(np.int64)), arrays.mk(list(clusters), tag=np.dtype(np.int64)),
+    smp_arr = arrays.mk(list(samples), tag=np.dtype(np.int64))
+    if unsigned:
+        smp_arr = arrays.mk(list(samples), tag=np.dtype(np.uint64)).view(_UInt64)
+    res = ctx.call("make_wfs_table", we._make_wfs_table, _SR(ns), smp_arr, arrays.mk(list(clusters), tag=np.dtype(np.int64)),
                    arrays.mk(list(chans), tag=np.dtype(np.int64)), max_wf=max_wf, trough_offset=offset, spike_length_samples=length, seed=None)
     wf, unit_ids = res
     cl = [int(ctx.concretize(core._it(c))) if isinstance(c, core.Sym) else int(c) for c in clusters]
@@ -305,6 +329,8 @@ def case_cbin_outputs(ctx, n, max_wf, chunk, length, offset):
         ctx.assume(samples[i] <= samples[i + 1])
     clusters = [ctx.int(f"u{i}", 0, 1) for i in range(n)]
     chans = [ctx.int(f"c{i}", 0, nsites - 1) for i in range(n)]
+    # at least one spike lies inside the margins (with none at all the function stops with an IndexError on the empty table: noted in DESIGN.md, not claimed)
+    ctx.assume(core.any_([and_(samples[i] > offset, samples[i] < ns - (length - offset)) for i in range(n)]))
     sr0 = spikeglx.Reader(FakePath("/d/x.imec0.ap.bin"))
     geom = {k: v for k, v in sr0.geometry.items()}
     order = [int(v) for v in sr0.raw_channel_order]
@@ -356,9 +382,12 @@ def case_cbin_outputs(ctx, n, max_wf, chunk, length, offset):
                     exp = np2env.raw_elem(S[r] - offset + t, order[ch]) * float(s2v[order[ch]])
                     ctx.oblige("trace_r_is_the_source_at_the_rows_spike_window", core.eq(got, exp), detail={"row": r, "k": k, "t": t})
     ctx.oblige("table_is_sorted_by_cluster", all(rows_of_unit[u_] == list(range(rows_of_unit[u_][0], rows_of_unit[u_][-1] + 1)) for u_ in rows_of_unit if rows_of_unit[u_]), detail={"rows_of_unit": {str(k): v for k, v in rows_of_unit.items()}})
-    # templates: NaN-aware median over the unit's saved waveforms (units without any waveform stay NaN)
-    for iu, u_ in enumerate(units):
-        rows = rows_of_unit.get(u_, [])
+    # templates: row i is the NaN-aware median over the saved waveforms of the i-th unit PRESENT IN THE TABLE (this is how the loader
+    # pairs templates with its per-cluster table); the rows left over for units without any waveform stay NaN
+    present = [u_ for u_ in units if rows_of_unit.get(u_)]
+    for iu in range(len(units)):
+        u_ = present[iu] if iu < len(present) else None
+        rows = rows_of_unit.get(u_, []) if u_ is not None else []
         for k in range(nn):
             for t in (0, length - 1):
                 got = templates[iu, k, t]
@@ -389,7 +418,10 @@ def case_cbin_outputs(ctx, n, max_wf, chunk, length, offset):
 def cases(tier):
     b = bounds(tier)
     cs = []
-    # cs.append(Case("cbin_outputs_n3_maxwf2", "case_cbin_outputs", {"n": 3, "max_wf": 2, "chunk": 12, "length": 4, "offset": 1}, timeout_s=3400, max_paths=900000))   # sized below
+    # whole extract_wfs_cbin: 2 spikes (786 paths, about 2 min); thorough adds 3 spikes with max_wf 1
+    cs.append(Case("cbin_outputs_n2_maxwf2", "case_cbin_outputs", {"n": 2, "max_wf": 2, "chunk": 12, "length": 4, "offset": 1}, timeout_s=3400, max_paths=900000))
+    if tier == "thorough":
+        cs.append(Case("cbin_outputs_n3_maxwf1", "case_cbin_outputs", {"n": 3, "max_wf": 1, "chunk": 12, "length": 4, "offset": 1}, timeout_s=7000, max_paths=900000))
     for g in GEOMS:
         cs.append(Case(f"cutout_{g}", "case_cutout", {"geom": g, "ns": 9, "length": 4, "offset": 1, "nwf": 2, "add_nan": True}, timeout_s=2400, max_paths=100000))
     cs.append(Case("cutout_np1_6_prepadded", "case_cutout", {"geom": "np1_6", "ns": 8, "length": 3, "offset": 2, "nwf": 1, "add_nan": False}, timeout_s=2400))
@@ -399,6 +431,8 @@ def cases(tier):
     # three units, so that a unit without any valid spike can sit before two units that have some
     for mw in ([1] if tier == "quick" else [1, 2]):
         cs.append(Case(f"selection_3units_n4_maxwf{mw}", "case_selection", {"n": 4, "max_wf": mw, "offset": 3, "length": 8, "nunits": 3}, timeout_s=3400, max_paths=900000))
+    # spike times given as unsigned integers (Kilosort's uint64 spike_times)
+    cs.append(Case("selection_uint64_times_n3_maxwf2", "case_selection", {"n": 3, "max_wf": 2, "offset": 3, "length": 8, "unsigned": True}, timeout_s=3400, max_paths=900000))
     for ic in (0, 1, 2):
         cs.append(Case(f"chunk_{ic}", "case_chunk", {"i_chunk": ic, "length": 8, "offset": 3}, timeout_s=2400))
     # trough late in the window (offset > length / 2): the look-behind before a chunk is larger than the look-ahead after it
@@ -462,7 +496,7 @@ not_reproduced()
         return f"""
 import ibldsp.waveform_extraction as we
 class SR: ns = {m['ns']}
-samples = np.array({samples}); clusters = np.array({clusters}); chans = np.array({chans})
+samples = np.array({samples}, dtype=np.uint64 if {bool(params.get("unsigned"))} else np.int64); clusters = np.array({clusters}); chans = np.array({chans})
 max_wf, offset, length = {params['max_wf']}, {params['offset']}, {params['length']}
 valid = (samples > offset) & (samples < SR.ns - (length - offset))
 bad = []
@@ -483,6 +517,55 @@ for seed in range(30):
     if bad: break
 print(samples, clusters, valid, bad[:4])
 if bad: reproduced(str(bad[:4]))
+not_reproduced()
+"""
+    if case.startswith("cbin_outputs"):
+        n = params["n"]
+        return f"""
+import sys, tempfile, pathlib, warnings
+sys.path.insert(0, '/verif')
+from symex import sglx
+import ibldsp.waveform_extraction as we, ibldsp.utils as u, spikeglx, pandas as pd
+ns, chunk, length, offset, max_wf = {m['ns']}, {params['chunk']}, {params['length']}, {params['offset']}, {params['max_wf']}
+samples = np.array({[m[f's{i}'] for i in range(n)]}, dtype=np.int64); clusters = np.array({[m[f'u{i}'] for i in range(n)]}, dtype=np.int64); chans = np.array({[m[f'c{i}'] for i in range(n)]}, dtype=np.int64)
+nsites = 3; nc = 4
+d = pathlib.Path(tempfile.mkdtemp()); out = d / 'out'; out.mkdir()
+rs = np.random.default_rng(0); data = rs.integers(-3000, 3000, size=(ns, nc)).astype(np.int16)
+(d / 'x.imec0.ap.meta').write_text(sglx.imec_meta_text('3B2', [(0, i % 2, i // 2) for i in range(nsites)], gains=[(500, 250)] * nsites, ns=format(ns / 30000.0, '.12f'), fs_hz='30000', file_size=ns * nc * 2))
+data.tofile(d / 'x.imec0.ap.bin')
+sr = spikeglx.Reader(d / 'x.imec0.ap.bin')
+geom = sr.geometry
+we.make_channel_index = lambda g, **k: u.make_channel_index(g, radius=35.0)      # a radius that leaves NaN padding on a 3-site excerpt (as in the check)
+nbr = u.make_channel_index(np.c_[geom['x'], geom['y']], radius=35.0)
+bad = []
+for seed in range(4):
+    try:
+        we.extract_wfs_cbin(d / 'x.imec0.ap.bin', out, samples, clusters, chans, h=geom, max_wf=max_wf, trough_offset=offset, spike_length_samples=length,
+                            chunksize_samples=chunk, n_jobs=1, preprocess_steps=[], seed=seed)
+    except Exception as e:
+        reproduced(f'extract_wfs_cbin raised {{type(e).__name__}}: {{e}}')
+    traces = np.load(out / 'waveforms.traces.npy'); templates = np.load(out / 'waveforms.templates.npy')
+    table = pd.read_parquet(out / 'waveforms.table.pqt'); chmap = np.load(out / 'waveforms.channels.npz')['channels']
+    full = np.vstack([sr[:, :nsites].T, np.full((1, ns), np.nan)]).astype(np.float32)
+    valid = (samples > offset) & (samples < ns - (length - offset))
+    nwf = sum(min(max_wf, int(np.sum((clusters == c) & valid))) for c in np.unique(clusters))
+    if not (len(table) == nwf == traces.shape[0] == chmap.shape[0]): bad.append(('shapes', len(table), traces.shape, chmap.shape, nwf)); break
+    W = table['waveform_index'].to_numpy(); S = table['sample'].to_numpy(); P = table['peak_channel'].to_numpy(); C = table['cluster'].to_numpy()
+    for r in range(nwf):
+        if W[r] != r: bad.append(('waveform_index of row', r, int(W[r])))
+        if not np.array_equal(chmap[r], nbr[P[r]]): bad.append(('channel map row', r))
+        exp = full[nbr[P[r]]][:, S[r] - offset: S[r] - offset + length]
+        if not np.array_equal(traces[r], exp, equal_nan=True): bad.append(('trace row differs from the source window', r))
+    if list(C) != sorted(C): bad.append(('table not sorted by cluster', list(C)))
+    present = sorted(set(C.tolist()))
+    with warnings.catch_warnings():
+        warnings.simplefilter('ignore')
+        for i, c in enumerate(present):
+            exp = np.nanmedian(traces[C == c], axis=0)
+            if not np.allclose(templates[i], exp, equal_nan=True): bad.append(('template', i, 'is not the nanmedian of the traces of cluster', c))
+    if bad: break
+print(bad)
+if bad: reproduced(str(bad)[:600])
 not_reproduced()
 """
     if case.startswith("chunk"):
